@@ -30,6 +30,20 @@ def do_format(messages):
                     r[name] = out
             except Exception as e:
                 r[name + "_exc"] = "%s: %s" % (type(e).__name__, e)
+        # a history of renderings of ONE dictionary (as a destination fan-out or a viewer would do): the renderers are functions of
+        # the message, so the dictionary must come back unchanged and every later rendering must equal the first
+        r["rerender"] = ""
+        if r["pretty"] is not None and r["compact"] is not None:
+            import copy
+            d = copy.deepcopy(m)
+            try:
+                outs = [pretty_format(d), compact_format(d), pretty_format(d), compact_format(d)]
+                if d != m:
+                    r["rerender"] = "the message was changed by rendering it: %r became %r" % (m, d)
+                elif outs != [r["pretty"], r["compact"], r["pretty"], r["compact"]]:
+                    r["rerender"] = "renderings of the same message differ: %r" % (outs,)
+            except Exception as e:
+                r["rerender"] = "re-rendering raised %s: %s" % (type(e).__name__, e)
         res.append(r)
     return res
 
